@@ -153,3 +153,34 @@ B('c09-args-loop', 'C09', AST,
 B('c09-slice-locals', 'C09', AST,
   "        return slice(\n            safe_cast(self.start.eval(state), int),\n            safe_cast(self.stop.eval(state), int),\n            safe_cast(self.step.eval(state), int),\n        )",
   "        a = safe_cast(self.start.eval(state), int)\n        b = safe_cast(self.stop.eval(state), int)\n        c = safe_cast(self.step.eval(state), int)\n        return slice(a, b, c)")
+
+# =============================================================================== C12
+ASG = "        state.names[self.name] = copy.deepcopy(value)"
+M('c12-assign-no-deepcopy', 'C12', 'C12.R1', AST, ASG, "        state.names[self.name] = value")
+M('c12-setitem-no-deepcopy', 'C12', 'C12.R1', FUN, "    container[key] = copy.deepcopy(value)", "    container[key] = value")
+M('c12-assign-shallow-copy', 'C12', 'C12.R1', AST, ASG, "        state.names[self.name] = copy.copy(value)")
+M('c12-setitem-list-copy', 'C12', 'C12.R1', FUN, "    container[key] = copy.deepcopy(value)",
+  "    container[key] = list(value) if isinstance(value, list) else value")
+M('c12-shortop-no-deepcopy', 'C12', 'C12.R1', AST,
+  "        value = copy.deepcopy(self.value.eval(state))", "        value = self.value.eval(state)")
+M('c12-setwithop-no-deepcopy', 'C12', 'C12.R1', FUN,
+  "    key = _key_cast(container, key)\n    value = copy.deepcopy(value)\n", "    key = _key_cast(container, key)\n")
+M('c12-assign-copy-one-branch', 'C12', 'C12.R1', AST, ASG,
+  "        state.names[self.name] = copy.deepcopy(value) if isinstance(value, dict) else value")
+M('c12-setitem-second-store', 'C12', None, FUN, "    container[key] = copy.deepcopy(value)\n    return value",
+  "    container[key] = copy.deepcopy(value)\n    container['_last'] = value\n    return value")
+M('c12-shortop-plus-raw', 'C12', 'C12.R1', AST,
+  "        value = copy.deepcopy(self.value.eval(state))\n\n        if self.op == '+=':\n            state.names[self.name] += value",
+  "        raw = self.value.eval(state)\n        value = copy.deepcopy(raw)\n\n        if self.op == '+=':\n            state.names[self.name] += raw")
+M('c12-same-copy-twice', 'C12', 'C12.R2', AST, ASG,
+  "        c = copy.deepcopy(value)\n        state.names[self.name] = c\n        state.names['_'] = c")
+
+B('c12-from-import-deepcopy', 'C12', edits=[
+  (AST, "import copy\n", "import copy\nfrom copy import deepcopy\n"),
+  (AST, ASG, "        state.names[self.name] = deepcopy(value)")])
+B('c12-clone-alias', 'C12', edits=[
+  (FUN, "REGEX_TIMEOUT = 0.05\n", "REGEX_TIMEOUT = 0.05\n_clone = copy.deepcopy\n"),
+  (FUN, "    container[key] = copy.deepcopy(value)", "    container[key] = _clone(value)")])
+B('c12-copy-at-evaluation', 'C12', AST,
+  "        value = self.value.eval(state)\n        state.names[self.name] = copy.deepcopy(value)",
+  "        value = copy.deepcopy(self.value.eval(state))\n        state.names[self.name] = value")
